@@ -5,3 +5,4 @@ import Mux.Ties.C05
 import Mux.Ties.C06
 import Mux.Ties.C07
 import Mux.Ties.C09
+import Mux.Ties.C16
